@@ -169,7 +169,9 @@ func (mut *GenericMutableMap[M, T]) Revert(ctx context.Context) {
 	// since we check-pointed, our last checkpoint
 	// may be stashed in a separate tree.MutableMap
 	if mut.stash != nil {
-		mut.tuples = *mut.stash
+		// copy so that later writes cannot leak into the stash,
+		// which must stay reusable for the next Revert
+		mut.tuples = mut.stash.Copy()
 		return
 	}
 	mut.tuples.Edits.Revert(ctx)
